@@ -775,12 +775,17 @@ func definitelyNonNil(v ssa.Value, at *ssa.BasicBlock, depth int) bool {
 			}
 		}
 	case *ssa.Phi:
+		allNonNil := len(x.Edges) > 0
 		for i, e := range x.Edges {
 			if !definitelyNonNil(e, x.Block().Preds[i], depth+1) {
-				return false
+				allNonNil = false
+				break
 			}
 		}
-		return len(x.Edges) > 0
+		if allNonNil {
+			return true
+		}
+		// otherwise fall through to the dominance test on the phi itself
 	case *ssa.TypeAssert, *ssa.Extract:
 		// fall through to dominance test
 	}
